@@ -73,7 +73,11 @@ fn load(s: &mut Sched) {
 fn emit(s: &mut Sched, role: &str, ev: &str, fields: &str) {
     s.seq += 1;
     if let Some(path) = &s.trace {
-        if let Ok(mut f) = std::fs::OpenOptions::new().create(true).append(true).open(path) {
+        if let Ok(mut f) = std::fs::OpenOptions::new()
+            .create(true)
+            .append(true)
+            .open(path)
+        {
             let _ = writeln!(
                 f,
                 "{{\"seq\":{},\"role\":{:?},\"ev\":{:?}{}{}}}",
@@ -111,7 +115,12 @@ fn scheduled<T>(key_op: &str, op: impl FnOnce() -> T, describe: impl FnOnce(&T) 
         if started.elapsed() > Duration::from_secs(2) {
             // the head grant cannot be honoured: skip it
             let head = s.schedule.pop().unwrap_or_default();
-            emit(&mut s, &role, "sched_infeasible", &format!("\"skipped\":{:?},\"waiting\":{:?}", head, key));
+            emit(
+                &mut s,
+                &role,
+                "sched_infeasible",
+                &format!("\"skipped\":{:?},\"waiting\":{:?}", head, key),
+            );
             CV.notify_all();
             continue;
         }
@@ -158,38 +167,94 @@ pub struct TracedAtomicI32 {
 
 impl TracedAtomicI32 {
     pub const fn new(name: &'static str, v: i32) -> Self {
-        Self { name, inner: AtomicI32::new(v) }
+        Self {
+            name,
+            inner: AtomicI32::new(v),
+        }
     }
     pub fn load(&self, o: Ordering) -> i32 {
-        scheduled(&format!("{}.load", self.name), || self.inner.load(o), |r| format!("\"result\":{}", r))
+        scheduled(
+            &format!("{}.load", self.name),
+            || self.inner.load(o),
+            |r| format!("\"result\":{}", r),
+        )
     }
     pub fn store(&self, v: i32, o: Ordering) {
-        scheduled(&format!("{}.store", self.name), || self.inner.store(v, o), |_| format!("\"arg\":{}", v))
+        scheduled(
+            &format!("{}.store", self.name),
+            || self.inner.store(v, o),
+            |_| format!("\"arg\":{}", v),
+        )
     }
     pub fn swap(&self, v: i32, o: Ordering) -> i32 {
-        scheduled(&format!("{}.swap", self.name), || self.inner.swap(v, o), |r| format!("\"arg\":{},\"result\":{}", v, r))
+        scheduled(
+            &format!("{}.swap", self.name),
+            || self.inner.swap(v, o),
+            |r| format!("\"arg\":{},\"result\":{}", v, r),
+        )
     }
     pub fn fetch_max(&self, v: i32, o: Ordering) -> i32 {
-        scheduled(&format!("{}.fetch_max", self.name), || self.inner.fetch_max(v, o), |r| format!("\"arg\":{},\"result\":{}", v, r))
+        scheduled(
+            &format!("{}.fetch_max", self.name),
+            || self.inner.fetch_max(v, o),
+            |r| format!("\"arg\":{},\"result\":{}", v, r),
+        )
     }
     pub fn fetch_add(&self, v: i32, o: Ordering) -> i32 {
-        scheduled(&format!("{}.fetch_add", self.name), || self.inner.fetch_add(v, o), |r| format!("\"arg\":{},\"result\":{}", v, r))
+        scheduled(
+            &format!("{}.fetch_add", self.name),
+            || self.inner.fetch_add(v, o),
+            |r| format!("\"arg\":{},\"result\":{}", v, r),
+        )
     }
     pub fn fetch_or(&self, v: i32, o: Ordering) -> i32 {
-        scheduled(&format!("{}.fetch_or", self.name), || self.inner.fetch_or(v, o), |r| format!("\"arg\":{},\"result\":{}", v, r))
+        scheduled(
+            &format!("{}.fetch_or", self.name),
+            || self.inner.fetch_or(v, o),
+            |r| format!("\"arg\":{},\"result\":{}", v, r),
+        )
     }
-    pub fn compare_exchange(&self, current: i32, new: i32, s: Ordering, f: Ordering) -> Result<i32, i32> {
+    pub fn compare_exchange(
+        &self,
+        current: i32,
+        new: i32,
+        s: Ordering,
+        f: Ordering,
+    ) -> Result<i32, i32> {
         scheduled(
             &format!("{}.compare_exchange", self.name),
             || self.inner.compare_exchange(current, new, s, f),
-            |r| format!("\"expected\":{},\"arg\":{},\"ok\":{},\"result\":{}", current, new, r.is_ok(), match r { Ok(x) | Err(x) => *x }),
+            |r| {
+                format!(
+                    "\"expected\":{},\"arg\":{},\"ok\":{},\"result\":{}",
+                    current,
+                    new,
+                    r.is_ok(),
+                    match r {
+                        Ok(x) | Err(x) => *x,
+                    }
+                )
+            },
         )
     }
-    pub fn fetch_update<F: FnMut(i32) -> Option<i32>>(&self, s: Ordering, f: Ordering, func: F) -> Result<i32, i32> {
+    pub fn fetch_update<F: FnMut(i32) -> Option<i32>>(
+        &self,
+        s: Ordering,
+        f: Ordering,
+        func: F,
+    ) -> Result<i32, i32> {
         scheduled(
             &format!("{}.fetch_update", self.name),
             || self.inner.fetch_update(s, f, func),
-            |r| format!("\"ok\":{},\"result\":{}", r.is_ok(), match r { Ok(x) | Err(x) => *x }),
+            |r| {
+                format!(
+                    "\"ok\":{},\"result\":{}",
+                    r.is_ok(),
+                    match r {
+                        Ok(x) | Err(x) => *x,
+                    }
+                )
+            },
         )
     }
 }
@@ -201,15 +266,30 @@ pub struct TracedAtomicU32 {
 
 impl TracedAtomicU32 {
     pub const fn new(name: &'static str, v: u32) -> Self {
-        Self { name, inner: AtomicU32::new(v) }
+        Self {
+            name,
+            inner: AtomicU32::new(v),
+        }
     }
     pub fn load(&self, o: Ordering) -> u32 {
-        scheduled(&format!("{}.load", self.name), || self.inner.load(o), |r| format!("\"result\":{}", r))
+        scheduled(
+            &format!("{}.load", self.name),
+            || self.inner.load(o),
+            |r| format!("\"result\":{}", r),
+        )
     }
     pub fn store(&self, v: u32, o: Ordering) {
-        scheduled(&format!("{}.store", self.name), || self.inner.store(v, o), |_| format!("\"arg\":{}", v))
+        scheduled(
+            &format!("{}.store", self.name),
+            || self.inner.store(v, o),
+            |_| format!("\"arg\":{}", v),
+        )
     }
     pub fn fetch_add(&self, v: u32, o: Ordering) -> u32 {
-        scheduled(&format!("{}.fetch_add", self.name), || self.inner.fetch_add(v, o), |r| format!("\"arg\":{},\"result\":{}", v, r))
+        scheduled(
+            &format!("{}.fetch_add", self.name),
+            || self.inner.fetch_add(v, o),
+            |r| format!("\"arg\":{},\"result\":{}", v, r),
+        )
     }
 }
